@@ -439,6 +439,22 @@ def main(tier, seed, replay=None):
                     viol("predict_proba-not-exp-of-predict_log_proba", binfo)
                 if not same(Q, Q0):
                     viol("caller-array-modified", binfo)
+                # the same (fully observed, integer-valued) batch stored with an integer dtype
+                if not nans and np.all(Q0 == np.round(Q0)) and Q0.min() >= 0:
+                    for dt in (np.int64, np.int32, np.uint8) + ((np.bool_,) if Q0.max() <= 1 else ()):
+                        try:
+                            with np.errstate(all="ignore"):
+                                P2 = clf.predict_proba(Q0.astype(dt)); pred2 = clf.predict(Q0.astype(dt))
+                            okd = np.allclose(P2, P, rtol=1e-5, atol=1e-7) and np.array_equal(np.asarray(pred2), np.asarray(pred))
+                            err = None
+                        except Exception as e:
+                            okd = False; err = f"{type(e).__name__}: {e}"; P2 = None; pred2 = None
+                        if not okd:
+                            viol("answer-depends-on-the-dtype-the-batch-is-stored-in",
+                                 dict(binfo, dtype=np.dtype(dt).name, error=err, as_float=np.asarray(P).tolist(),
+                                      as_this_dtype=None if P2 is None else np.asarray(P2).tolist(),
+                                      predict_float=np.asarray(pred).tolist(), predict_this_dtype=None if pred2 is None else np.asarray(pred2).tolist()))
+                            break
                 nm = f"c{i}_{b}_{int(nans)}"
                 Xs = C.coq_list([G.row_coq(c, nf) for c in rows])
                 Ps = C.coq_list([C.coq_list([C.qlit(float(x)) for x in r]) for r in np.asarray(P, dtype=np.float64)])
